@@ -45,6 +45,35 @@ def gen_batch(r):
     return recs
 
 
+def exact_batches(r, svc):
+    """boundary-directed: batches of m small spans whose joint encoding is exactly LIMIT-1, LIMIT, LIMIT+1 bytes
+    (the size is measured with the model's encoder, then one name is padded to the byte)"""
+    import os
+    out = []
+    if not os.path.exists(C.FMODEL):
+        return out
+    probes = []
+    for m in (2, 3, 5):
+        base = []
+        for i in range(m):
+            rec = G.gen_record(r.fork(), i, "b%d" % i)
+            rec["span"] = i + 1
+            base.append(rec)
+        base[-1] = dict(base[-1], name="p" * 200)
+        probes.append(base)
+    rc, mo, _ = C.run_lines(C.FMODEL, "report", ["jaeger %s %s" % (G.hx(svc), G.wire_records(b)) for b in probes])
+    for base, o in zip(probes, mo):
+        f = o.split()
+        if len(f) != 2:
+            continue            # already more than one datagram: not a usable probe
+        size = len(f[1]) // 2
+        for target in (LIMIT - 1, LIMIT, LIMIT + 1):
+            pad = 200 + target - size
+            if 128 <= pad < 16000:
+                out.append(base[:-1] + [dict(base[-1], name="p" * pad)])
+    return out
+
+
 def run(v, tier, seed, replay):
     lean = C.lean_check(["C20"], tier)
     ok, err = C.cargo_build("fh-rep", ["fh-rep"])
@@ -54,9 +83,11 @@ def run(v, tier, seed, replay):
     if replay:
         cases = [json.load(open(replay))["batch"]]
         n = 0
+    svc = "svc"
+    if not replay:
+        cases += exact_batches(r.fork(), svc)
     for _ in range(n):
         cases.append(gen_batch(r.fork()))
-    svc = "svc"
     lines = ["jaeger %s %s" % (G.hx(svc), G.wire_records(b)) for b in cases]
     impl = model = None
     if ok:
@@ -72,6 +103,9 @@ def run(v, tier, seed, replay):
         for ci, (batch, out) in enumerate(zip(cases, impl + ["<missing>"] * (len(cases) - len(impl)))):
             stats["spans"] += len(batch)
             bad = None
+            if out.startswith("hang"):
+                fails.append((ci, "JaegerReporter::report did not return within 10 s for this batch of %d spans (the call must terminate)" % len(batch)))
+                break           # the harness stops after a hang: later batches were not run
             if not out.startswith("dg"):
                 bad = "reporter answered %r" % out[:60]
                 fails.append((ci, bad)); continue
@@ -132,7 +166,7 @@ def run(v, tier, seed, replay):
         "trusted_base": C.TRUSTED_BASE + ["thrift_codec 0.3.2 byte format: modelled (Model/Report/Thrift.lean), compared byte-for-byte on every batch, not proved", "UDP loopback delivers every datagram of a batch before report() returns"],
         "theorems": lean["theorems"], "axioms": lean["axioms"],
         "evaluations": len(cases), "distinct_nontrivial": len(nontriv),
-        "rule": "batches from VERIF_SEED: 0-300 records, name lengths chosen so that spans are ~8000/m bytes (m=1..10), spans within ±80 bytes of the limit alone, certainly-oversize spans at random positions, random small records; non-trivial = distinct batch that needed more than one datagram or had a skipped span",
+        "rule": "boundary-directed batches of 2/3/5 spans encoding to exactly 7999/8000/8001 bytes (sizes measured with the model's encoder); batches from VERIF_SEED: 0-300 records, name lengths chosen so that spans are ~8000/m bytes (m=1..10), spans within ±80 bytes of the limit alone, certainly-oversize spans at random positions, random small records; non-trivial = distinct batch that needed more than one datagram or had a skipped span",
         "samples": [{"spans": len(b), "name_lengths": [len(x["name"]) for x in b][:12]} for b in cases[:4]],
         "traces_validated_against_impl": len(cases) if impl is not None else 0, "stats": stats,
         "correspondence_mismatches": len(mism), "oracle_failures": len(fails), "skipped_spans_rechecked_alone": len(recheck),
